@@ -266,7 +266,15 @@ impl BlockWrite for RollingWriter {
                     (next_file_number, file)
                 } else {
                     let next_file_number = self.directory.files.inc(&self.file_number);
-                    let file = create_file(&self.directory.dir, &next_file_number)?;
+                    let file = match create_file(&self.directory.dir, &next_file_number) {
+                        Ok(file) => file,
+                        Err(io_err) => {
+                            // The file number must not stay registered: a retry would take it
+                            // for an existing wal file and open whatever sits at that path.
+                            self.directory.files.forget(&next_file_number);
+                            return Err(io_err);
+                        }
+                    };
                     (next_file_number, file)
                 };
 
